@@ -424,9 +424,14 @@ impl TypeChecker {
                     elem_expected.cloned().unwrap_or(ResolvedType::Unknown)
                 } else {
                     let first = self.eval_const_expr(&items[0], elem_expected, stack, decl_span)?;
-                    // Evaluate the rest just for validation.
+                    // The list is typed by its first element: every other element must have that type.
                     for it in items.iter().skip(1) {
-                        self.eval_const_expr(it, elem_expected, stack, decl_span)?;
+                        let r = self.eval_const_expr(it, elem_expected, stack, decl_span)?;
+                        if !self.types_compatible(&r.ty, &first.ty) {
+                            self.errors
+                                .push(errors::type_mismatch(&first.ty.to_string(), &r.ty.to_string(), it.span));
+                            return None;
+                        }
                     }
                     first.ty
                 };
@@ -461,8 +466,14 @@ impl TypeChecker {
                     elem_expected.cloned().unwrap_or(ResolvedType::Unknown)
                 } else {
                     let first = self.eval_const_expr(&items[0], elem_expected, stack, decl_span)?;
+                    // The set is typed by its first element: every other element must have that type.
                     for it in items.iter().skip(1) {
-                        self.eval_const_expr(it, elem_expected, stack, decl_span)?;
+                        let r = self.eval_const_expr(it, elem_expected, stack, decl_span)?;
+                        if !self.types_compatible(&r.ty, &first.ty) {
+                            self.errors
+                                .push(errors::type_mismatch(&first.ty.to_string(), &r.ty.to_string(), it.span));
+                            return None;
+                        }
                     }
                     first.ty
                 };
@@ -502,9 +513,20 @@ impl TypeChecker {
                     let (k0, v0) = &pairs[0];
                     let kk = self.eval_const_expr(k0, k_expected, stack, decl_span)?;
                     let vv = self.eval_const_expr(v0, v_expected, stack, decl_span)?;
+                    // The dict is typed by its first pair: every other key and value must have those types.
                     for (k, v) in pairs.iter().skip(1) {
-                        self.eval_const_expr(k, k_expected, stack, decl_span)?;
-                        self.eval_const_expr(v, v_expected, stack, decl_span)?;
+                        let rk = self.eval_const_expr(k, k_expected, stack, decl_span)?;
+                        if !self.types_compatible(&rk.ty, &kk.ty) {
+                            self.errors
+                                .push(errors::type_mismatch(&kk.ty.to_string(), &rk.ty.to_string(), k.span));
+                            return None;
+                        }
+                        let rv = self.eval_const_expr(v, v_expected, stack, decl_span)?;
+                        if !self.types_compatible(&rv.ty, &vv.ty) {
+                            self.errors
+                                .push(errors::type_mismatch(&vv.ty.to_string(), &rv.ty.to_string(), v.span));
+                            return None;
+                        }
                     }
                     (kk.ty, vv.ty)
                 };
